@@ -405,6 +405,13 @@ func init() {
 					return "decode-error"
 				}
 				v := verdict(pl.Verify(pks, ctx, nonce, o.boolean("issig"), kss))
+				if o["then_keys"] != nil && v == "accept" {
+					// the same (already verified) objects presented under other keys: what a first
+					// verification left in them must not make a second one succeed
+					if pl.Verify(keysOf(o, "then_keys"), ctx, nonce, o.boolean("issig"), kss) {
+						return "accept-then-accepted-under-other-keys"
+					}
+				}
 				if n == 1 {
 					// verification is a function of its arguments: asking the same objects again must
 					// give the same answer (proofs cache intermediate results between calls)
